@@ -56,9 +56,16 @@ THOROUGH = QUICK + [
     _c('orderbook', 'orderbook', dict(T=3), 1, 1),
     _c('window_storage', 'contract_storage', dict(T=4, win_s=(1, 4)), 2, 2),
     _c('take_straddles_boundary', 'contract_take', dict(T=4, take=(1, 3)), 2, 1),
+    # deeper: three extra scenarios, five steps, the boundary at every position of a discounted storage
+    _c('contract_storage_S3', 'contract_storage', dict(T=3), 1, 3),
+    _c('contract_storage_T5_boundary_1', 'contract_storage', dict(T=5, wacc=True), 1, 1),
+    _c('contract_storage_T5_boundary_4', 'contract_storage', dict(T=5, wacc=True), 4, 1),
+    _c('two_node_S3_first', 'two_node', dict(T=3), 0, 3),
+    _c('scaled_transport_last_S2', 'scaled', dict(T=3, base='transport'), 2, 2),
+    _c('multicommodity_T4_S2', 'multicommodity', dict(T=4, take=(1, 4)), 2, 2),
 ]
 BOUNDS = dict(quick='%s; boundary at first/middle/last step; 1-2 extra scenarios; T<=4' % [c[0] for c in QUICK], thorough='%s' % [c[0] for c in THOROUGH])
-OUTSIDE = ['more than 2 extra scenarios', 'MIP portfolios in the SLP', 'the numeric solver (contract, C03)']
+OUTSIDE = ['more than 2 (quick) / 3 (thorough) extra scenarios', 'MIP portfolios in the SLP', 'the numeric solver (contract, C03)']
 ASSUMPTIONS = ['scenarios share the present prices (documented)', 'the property\'s bounds are mathematical consequences of the two-stage characterisation proven here']
 EXTRA_SHIMS = ['cvxpy recorder stub (robust target only; see C03)']
 
